@@ -43,20 +43,20 @@ type SharedVal struct {
 
 // Scenario is one complete simulated run minus the schedule.
 type Scenario struct {
-	Prop     string          `json:"prop"`
-	Seed     uint64          `json:"seed"`
-	Index    int             `json:"index"`
-	Insts    []world.InstCfg `json:"insts"`
-	Tasks    [][]Op          `json:"tasks"`
-	Shared   []SharedVal     `json:"shared,omitempty"`
-	Vocabs   [][]string      `json:"vocabs,omitempty"`
-	Sites    []string        `json:"sites"`
-	Policy   engine.Policy   `json:"policy"`
-	PoolSeam bool            `json:"pool_seam,omitempty"`
-	PoolBias int             `json:"pool_bias,omitempty"`
-	Budget   int             `json:"budget,omitempty"`
-	SchedSeed uint64         `json:"sched_seed"`
-	Note     string          `json:"note,omitempty"`
+	Prop      string          `json:"prop"`
+	Seed      uint64          `json:"seed"`
+	Index     int             `json:"index"`
+	Insts     []world.InstCfg `json:"insts"`
+	Tasks     [][]Op          `json:"tasks"`
+	Shared    []SharedVal     `json:"shared,omitempty"`
+	Vocabs    [][]string      `json:"vocabs,omitempty"`
+	Sites     []string        `json:"sites"`
+	Policy    engine.Policy   `json:"policy"`
+	PoolSeam  bool            `json:"pool_seam,omitempty"`
+	PoolBias  int             `json:"pool_bias,omitempty"`
+	Budget    int             `json:"budget,omitempty"`
+	SchedSeed uint64          `json:"sched_seed"`
+	Note      string          `json:"note,omitempty"`
 }
 
 // Violation describes one failed check.
@@ -105,6 +105,10 @@ type prepOp struct {
 	expDesc  string
 	expNil   bool // Marshal returned nil bytes alone
 	twinVal  reflect.Value
+	twinEnc  []byte        // encoding of the same data through the non-interned twin type
+	snap     reflect.Value // independent copy of val taken before anything ran
+	srcVal   reflect.Value // the value whose encoding data is (when known)
+	mergeOK  bool          // the merge model applies to this op
 }
 
 type Prepared struct {
@@ -136,6 +140,7 @@ func (sc *Scenario) genValue(op *Op) reflect.Value {
 	if op.Vocab > 0 {
 		o.Vocab = sc.Vocabs[op.Vocab-1]
 	}
+	o.NonCanonical = op.Pat == "raw"
 	return world.Gen(ti.T, &r, o)
 }
 
@@ -161,7 +166,7 @@ func soloUnmarshal(cfg world.InstCfg, t reflect.Type, data []byte) (v reflect.Va
 		}
 	}()
 	p := world.NewInstance(cfg)
-	in := append([]byte(nil), data...)
+	in := append(make([]byte, 0, len(data)), data...) // exact capacity, like the live run
 	out := reflect.New(t)
 	err := p.Unmarshal(in, out.Interface())
 	if err != nil {
@@ -256,6 +261,14 @@ func (p *Prepared) prepareOp(op *Op) (*prepOp, bool) {
 			return nil, false
 		}
 		po.expBytes, po.expErr, po.expNil = b, errs, b == nil
+		po.snap = world.Clone(po.val)
+		if po.ti.Twin != "" && errs == "" {
+			tv := world.ConvertTo(po.val, typeInfo(po.ti.Twin).T)
+			tb, terrs, tpan := soloMarshal(cfg, tv.Addr().Interface())
+			if tpan == "" && terrs == "" {
+				po.twinEnc = tb
+			}
+		}
 	case "unmarshal", "unmarshalReuse":
 		data, err := hex.DecodeString(op.Data)
 		if err != nil {
@@ -267,6 +280,14 @@ func (p *Prepared) prepareOp(op *Op) (*prepOp, bool) {
 			return nil, false
 		}
 		po.expVal, po.expErr = v, errs
+		if op.Target > 0 && op.VSeed != 0 && po.ti.Family == "FM" && errs == "" {
+			// merge model: only when the value behind the bytes is known and
+			// its fresh round trip is the identity
+			po.srcVal = sc.genValue(op)
+			if ok, _ := world.Equal(po.srcVal, v); ok {
+				po.mergeOK = true
+			}
+		}
 		if po.ti.Twin != "" {
 			tv, terrs, tpan := soloUnmarshal(cfg, typeInfo(po.ti.Twin).T, data)
 			if tpan == "" && terrs == errs {
@@ -302,7 +323,7 @@ func (p *Prepared) prepareOp(op *Op) (*prepOp, bool) {
 				return nil, false
 			}
 		}
-	case "scribble", "recheck", "mutate", "nop":
+	case "scribble", "recheck", "mutate", "nop", "reslice":
 	default:
 		panic(HarnessError{"unknown op kind " + op.Kind})
 	}
@@ -383,6 +404,9 @@ func (t *taskState) run() {
 			return
 		}
 	}
+	if len(t.live) > 0 && len(ops) > 0 {
+		t.recheck(len(ops)-1, ops[len(ops)-1], "by the end of the run")
+	}
 }
 
 func (t *taskState) runOne(i int, po *prepOp) {
@@ -424,14 +448,30 @@ func (t *taskState) sharedOp(i int, po *prepOp) {
 		p := t.inst(po)
 		b, err := p.Marshal(nil, po.val.Addr().Interface())
 		t.checkBytes(i, po, b, err)
+		if err == nil {
+			if po.twinEnc != nil && !world.SameEncoding(typeInfo(po.ti.Twin).T, b, po.twinEnc) {
+				t.fail(i, po, "mismatch", fmt.Sprintf("encoding %s differs from the non-interned twin's %s", hexShort(b), hexShort(po.twinEnc)))
+			}
+			if ok, path := world.Equal(po.val, po.snap); !ok {
+				t.fail(i, po, "alias", "Marshal modified the value it was given, at "+path)
+			} else if t.x.prop == "C11" {
+				t.aliasCheck(i, po, b)
+			}
+		}
 	case "unmarshal":
-		p := t.inst(po)
-		in := append(make([]byte, 0, len(po.data)), po.data...)
-		out := reflect.New(po.ti.T)
-		err := p.Unmarshal(in, out.Interface())
-		t.checkDecoded(i, po, out, err)
-		if string(in) != string(po.data) {
-			t.fail(i, po, "alias", "Unmarshal modified its input")
+		t.unmarshalOp(i, po)
+	case "marshalAppend":
+		t.marshalAppendOp(i, po)
+	case "scribble":
+		t.scribbleOp(i, po)
+	case "recheck":
+		t.recheck(i, po, "after later operations")
+	case "reslice":
+		if tgt, ok := t.targets[po.op.Target]; ok {
+			r := engine.PRNG{S: uint64(po.op.Arg) + 7}
+			if world.Reslice(tgt.Elem(), r.Intn) > 0 {
+				t.probe("fault:target_slices_cut_keeping_capacity")
+			}
 		}
 	case "codec":
 		t.codecOp(i, po)
